@@ -15,13 +15,22 @@ fn fail<T>(clause: &'static str, detail: String) -> Result<T, Fail> {
     Err(Fail { clause, detail })
 }
 
-/// Tiny DPLL over clauses of (var, polarity). Returns true if satisfiable.
-pub fn dpll(nvars: usize, clauses: &[Vec<(usize, bool)>]) -> bool {
-    fn go(assign: &mut Vec<Option<bool>>, clauses: &[Vec<(usize, bool)>]) -> bool {
+/// Tiny DPLL over clauses of (var, polarity). `Some(true)` = satisfiable, `Some(false)` =
+/// unsatisfiable, `None` = the (deterministic) node budget ran out: no verdict.
+/// Branches on a literal of a shortest open clause, satisfying polarity first.
+pub fn dpll(nvars: usize, clauses: &[Vec<(usize, bool)>]) -> Option<bool> {
+    fn go(assign: &mut Vec<Option<bool>>, clauses: &[Vec<(usize, bool)>], budget: &mut u64) -> Option<bool> {
+        if *budget == 0 {
+            return None;
+        }
+        *budget -= 1;
         // unit propagation
         let mut trail: Vec<usize> = vec![];
+        let mut branch: Option<(usize, bool)>;
         loop {
             let mut changed = false;
+            branch = None;
+            let mut best = usize::MAX;
             for c in clauses {
                 let mut unassigned = None;
                 let mut n_un = 0;
@@ -35,7 +44,9 @@ pub fn dpll(nvars: usize, clauses: &[Vec<(usize, bool)>]) -> bool {
                         Some(_) => {}
                         None => {
                             n_un += 1;
-                            unassigned = Some((v, pol));
+                            if unassigned.is_none() {
+                                unassigned = Some((v, pol));
+                            }
                         }
                     }
                 }
@@ -46,38 +57,58 @@ pub fn dpll(nvars: usize, clauses: &[Vec<(usize, bool)>]) -> bool {
                     for v in trail {
                         assign[v] = None;
                     }
-                    return false;
+                    return Some(false);
                 }
                 if n_un == 1 {
                     let (v, pol) = unassigned.unwrap();
                     assign[v] = Some(pol);
                     trail.push(v);
                     changed = true;
+                } else if n_un < best {
+                    best = n_un;
+                    branch = unassigned;
                 }
             }
             if !changed {
                 break;
             }
         }
-        match assign.iter().position(|a| a.is_none()) {
-            None => true,
-            Some(v) => {
-                for val in [false, true] {
+        match branch {
+            // every clause is satisfied: the remaining variables are free
+            None => Some(true),
+            Some((v, pol)) => {
+                for val in [pol, !pol] {
                     assign[v] = Some(val);
-                    if go(assign, clauses) {
-                        return true;
+                    match go(assign, clauses, budget) {
+                        Some(true) => return Some(true),
+                        Some(false) => {}
+                        None => {
+                            assign[v] = None;
+                            for v in trail {
+                                assign[v] = None;
+                            }
+                            return None;
+                        }
                     }
                     assign[v] = None;
                 }
                 for v in trail {
                     assign[v] = None;
                 }
-                false
+                Some(false)
             }
         }
     }
     let mut assign = vec![None; nvars];
-    go(&mut assign, clauses)
+    let mut budget = 400_000u64;
+    let r = go(&mut assign, clauses, &mut budget);
+    DPLL_EXHAUSTED.with(|c| c.set(r.is_none()));
+    r
+}
+
+thread_local! {
+    /// the last `dpll` call on this thread ran out of budget (evidence label, never a verdict)
+    pub static DPLL_EXHAUSTED: std::cell::Cell<bool> = const { std::cell::Cell::new(false) };
 }
 
 /// C03: edge truth + reachability + self-contained unsatisfiability.
@@ -339,7 +370,7 @@ pub fn check_conflict_graph(u: &Universe, ix: &Index, p: &Problem, g: &GraphData
             }
         }
     }
-    if n <= 64 && dpll(n, &clauses) {
+    if n <= 64 && dpll(n, &clauses) == Some(true) {
         return fail(
             "graph-satisfiable",
             "the facts shown in the conflict graph admit a selection that installs the root".into(),
